@@ -53,6 +53,16 @@ CHECKS = {
             "TLC enumerates every (required, supplied) pair of the type universe, checks the lattice laws of the documented rules on it, and emits verdict and common type; the compiler must accept exactly the assignable pairs in each syntactic position (typed let, argument, field, variant payload, return, annotated element) and infer Sequence<CommonType> for two-element literals. Supplied callables are tried both as lambdas and as values of a declared callable type.",
             "Supplied types whose canonical inhabitant does not have exactly that static type (probed through the compiler) are skipped; required types containing unknown are not expressible; callable joins are not compared.",
             "DESIGN.md 6 C04"),
+    "C01": ("model_checking",
+            "TLA+ shape relation (XrTypeAlg.HasShape) as trace acceptor XrShape over (static type, value) pairs recorded from the interpreter",
+            "Every value produced by an accepted program (generated core programs, token-level near-miss mutants, mutated shipped scripts and book examples, every static root-scope signature applied to several inhabitants per parameter and integer edge values; under no limits and tight limits) is recorded with the static type the compiler assigned and TLC checks HasShape(value, type) for each; a panic, crash or hang of an accepted program has no action and is reported.",
+            "Values are observed through the verif_dump hook (lazy sequences forced for 12 elements); dynamic overloads and signatures without inhabitants are not swept; the program space is sampled.",
+            "DESIGN.md 6 C01"),
+    "C05": ("model_checking",
+            "TLA+ overload resolution (XrOverload.Resolve + meta-properties) enumerated by TLC; each case replayed in several syntactic variants",
+            "TLC enumerates candidate sets from a 16-signature pool x argument tuples, predicts Unique(tag)/AmbiguousOverload/NoOverload and checks on the model invariance under alpha-renaming, non-matching additions and scope level; every case is compiled and run in 3 variants (declaration order, renamed generics/variables, extra non-matching overload, candidates split over enclosing scope) and the tag returned by the body that ran must be the predicted one.",
+            "Candidate pool and argument tuples are fixed small universes (sets of <= 2 candidates quick, <= 3 thorough); stdlib-name collisions and dynamic lookup are hand-written templates.",
+            "DESIGN.md 6 C05"),
 }
 
 NOT_YET = {}
